@@ -19,7 +19,7 @@ PROPERTY = "C12"
 LEVEL = "model_checking"
 RULE = (
     "BFS over all event histories up to depth 3 (quick) / 4 (thorough) with at most 1 / 2 failing or fault-injected activations per history; 27 events: enable x 9 context selections, per-call to(), disable(1), "
-    "disable(), 3 with-enter, with-exit, raise-inside-with (an Exception, KeyboardInterrupt, GeneratorExit), 4 naturally failing activations, 5 injected-fault activations (every internal step of the activation), define, 2 cache-touching queries; "
+    "disable(), 3 with-enter, with-exit, 4 calls of with_context-decorated functions (2 of them failing to activate), raise-inside-with (an Exception, KeyboardInterrupt, GeneratorExit), 4 naturally failing activations, 5 injected-fault activations (every internal step of the activation), define, 2 cache-touching queries; "
     "14-probe observation vector + pooled-context snapshots in every state vs a fresh registry with the reference stack. non-trivial = distinct state fingerprint"
 )
 ASSUMPTIONS = [
@@ -105,6 +105,9 @@ EVENTS = [
     ("enable", ["A"], {}), ("enable", ["A"], {"n": 2}), ("enable", ["Ax"], {"n": 5}), ("enable", ["B"], {}), ("enable", ["R"], {}), ("enable", ["RB"], {}),
     ("enable", ["A", "R"], {}), ("enable", ["R", "RB"], {}), ("enable", ["SH"], {}),
     ("to", ["A"], {"n": 7}),
+    # a function decorated with ureg.with_context: its contexts are active during the call only — also when their
+    # activation fails, whatever the caller has active
+    ("deco", ["R"], {}), ("deco", ["A"], {"n": 4}), ("deco", ["BAD"], {}), ("deco", ["NOSUCH"], {}),
     ("disable", 1), ("disable", None),
     ("with", ["R"], {}), ("with", ["A"], {"n": 3}), ("with", ["RB", "B"], {}),
     ("exit",), ("raise",), ("raise", "KeyboardInterrupt"), ("raise", "GeneratorExit"),
@@ -121,7 +124,7 @@ def ev_key(ev):
 
 
 def is_failing(ev):
-    return ev[0] == "fault" or (ev[0] in ("enable", "with") and any(n in FAILING for n in ev[1]))
+    return ev[0] == "fault" or (ev[0] in ("enable", "with", "deco") and any(n in FAILING for n in ev[1]))
 
 
 def call(fn):
@@ -216,6 +219,14 @@ class CtxDriver(explore.Driver):
         if kind == "to":
             names, kw = list(ev[1]), dict(ev[2])
             return call(lambda: fr(reg.Quantity(1, "ua").to("ub", *names, **kw).magnitude))
+        if kind == "deco":
+            names, kw = list(ev[1]), dict(ev[2])
+
+            def body():
+                return sorted(c.name for c in reg._active_ctx.contexts[: len(names)])  # the most recent ones come first
+
+            o = call(lambda: reg.with_context(*names, **kw)(body)())
+            return o if o[0] != "ok" else ["ok", [str(x) for x in o[1]]]
         if kind == "disable":
             n = ev[1]
             o = call(lambda: reg.disable_contexts(n))
@@ -328,6 +339,11 @@ class CtxDriver(explore.Driver):
     def outcome_oracle(self, acc, s, hist, outs):
         # failed activations must have raised (checked on every transition, also when nothing changed)
         last = hist[-1]
+        if last[0] == "deco" and not is_failing(last):
+            reg = s.reg
+            want = ["ok", sorted(reg._contexts[n].name for n in last[1])]
+            if outs[-1] != want:
+                acc.violation(["decorator", "with_context", "contexts-not-active-inside-the-decorated-call", ""], {"history": [list(e) for e in hist], "outcomes": outs}, want, outs[-1])
         if is_failing(last) and outs[-1][0] == "ok" and outs[-1] != ["ok", "fault-not-reached"]:
             acc.violation(["atomicity", "enable_contexts", "failing-activation-did-not-raise", "failing-" + last[0]], {"history": [list(e) for e in hist], "outcomes": outs}, "an exception", outs[-1])
 
